@@ -32,7 +32,7 @@ CHECKS = {
                 "unique error object; backend Read/Write calls can be replaced by unique injected errors at any point of the "
                 "generated schedule. Each Get result is checked for provenance (own key, finished build or stored value, or an "
                 "error produced for that key). In thorough mode every backend call index of sampled fault-free base schedules "
-                "is additionally enumerated as the single fault position.",
+                "is additionally enumerated as the single fault position. Further checks: waiters of a panicking builder, and layered caches (the builder of an outer Get reads the same key through another Failover instance; per-instance provenance).",
         "note": "Schedules are sampled (call-out granularity). Generic value type is string (zero value detectable).",
         "assumptions": ["interleaving granularity = frontend call-outs"],
         "jobs": [
@@ -94,7 +94,7 @@ CHECKS = {
                 "call-out schedule; the builder must be invoked exactly once per case (success) or exactly once with every later "
                 "Get served from the failure cache or stale value (failure). (2) Sequential timelines of Gets at generated fake "
                 "instants constructed outside the failure cache's jitter band: no build and the same error object inside "
-                "[t_fail, t_fail+0.95F), exactly one build after t_fail+1.05F or with FailedUpdateTTL=-1. Sampled search.",
+                "[t_fail, t_fail+0.95F), exactly one build after t_fail+1.05F or with FailedUpdateTTL=-1. Sampled search. (3) Dozens of keys failing together on frontends whose BackendConfig carries eviction settings: no rebuild inside the suppression window whatever cleanup cycles run.",
         "note": "Conditions that would legitimately allow a second build (result not fresh any more, external ops, SkipRead, "
                 "negative TTL) are excluded by construction and counted as classes. Freshness in (2) is observed by a direct "
                 "backend read, not modelled.",
@@ -119,7 +119,7 @@ CHECKS = {
                 "Done/Err/Deadline/values of its context: final store TTL = fold of builder updates over the caller's cell, "
                 "refresh store TTL = UpdateTTL, caller context TTL unchanged by the refresh, stored expiry = write instant + TTL, "
                 "background build context detached yet carrying the caller's values even for cancelled callers. "
-                "(3) Lone SkipRead Gets must rebuild exactly once and store the result. Sampled search.",
+                "(3) Lone SkipRead Gets must rebuild exactly once and store the result. Sampled search. (4) Frontends on their own default backend observed black-box on a fake clock (UpdateTTL of the stale re-store, TTL of the final store); layered caches and a custom Trait-based backend.",
         "note": "SkipRead Gets that overlap another Get's update of the same key are only required to satisfy C02; the rebuild "
                 "rule is asserted for non-overlapping and lone Gets.",
         "assumptions": ["interleaving granularity = frontend call-outs", "backend jitter disabled so stored expiry is exact"],
@@ -204,7 +204,7 @@ CHECKS = {
         "text": "TTL magnitudes from 1ns to ~146 years (log-uniform, both signs), all jitter settings and all three backends are "
                 "generated; the expiry reported by Walk is compared with t+T exactly (jitter off) or the band "
                 "[t+T(1-J/2), t+T(1+J/2)]; the fake clock is then moved to exactly E and E+1ns to check the fresh/expired "
-                "boundary and ExpiredAt == Walk's instant. Sampled search.",
+                "boundary and ExpiredAt == Walk's instant. Sampled search. Also: up to 140000 jittered writes into one long-lived instance with every expiry checked against the band, and the linearizability runner for writes racing batch operations.",
         "note": "Trusts testing/synctest's fake clock; float slop of |T|*2^-50+2ns is allowed on band edges; instants are kept "
                 "below year 2255 (int64 unix-nanosecond range).",
         "assumptions": ["band edges allow |T|*2^-50 + 2ns of float64 rounding"],
@@ -249,7 +249,7 @@ CHECKS = {
                 "limits, fractions, strategies and EvictionNeeded scripts are generated; after each real cleanup cycle the "
                 "survivors are compared with: no breach => nothing removed; count breach => CountSoftLimit*(1-f) within one "
                 "entry; other breach => n*f within one; max metric(removed) <= min metric(kept); cache_evict == removed; "
-                "nothing disappears between ticks. Sampled search.",
+                "nothing disappears between ticks. Sampled search. Also: memory soft limits that are configured but not exceeded (process with a heap high-water mark above the limit, runtime.MemStats sampled around every cycle) must evict nothing.",
         "note": "Rank metric is the model's (expiry / last fresh read instant / fresh read count); never-expiring entries under "
                 "MostExpired and expired reads under LRU/LFU are excluded by construction (rank not stated).",
         "assumptions": ["SysMemSoftLimit not exercised (it calls debug.FreeOSMemory)"],
@@ -363,7 +363,7 @@ CHECKS = {
                 "delete must equal the reference model's count. (b) C02-style generated schedules with faults and trackers on "
                 "the frontend, its failure cache and the real backend: build, failed, refreshed, failure-cache writes and the "
                 "real backend's read/write/delete totals must equal the counts in the wrapper's log at quiescence. "
-                "(c) free-running concurrent workloads: totals vs. per-goroutine operation counts. Sampled search.",
+                "(c) free-running concurrent workloads: totals vs. per-goroutine operation counts. Sampled search. Also: a custom backend built on the exported Trait helpers with the tracker attached through Trait.Stat, and key alphabets with equal 64-bit hashes.",
         "note": "cache_refreshed is specified as 'stale re-stores': the oracle accepts any count between the successful and the "
                 "attempted re-stores (they differ only when the re-store's backend write was made to fail).",
         "assumptions": ["tracker callbacks never block (rule R1)"],
